@@ -292,6 +292,7 @@ def run(ctx, rep):
         check_transform_listen(ctx, rep, kinds, cls)
     check_inplace(ctx, rep)
     check_foreign_private_stores(ctx, rep)
+    check_registration_listens(ctx, rep)
     check_optimizer(ctx, rep)
     check_transform_cache(ctx, rep)
     check_memo_keys(ctx, rep)
@@ -647,16 +648,19 @@ def check_memo_keys(ctx, rep, rule='C11.M', only=None):
                     # value of the same shape leaves the old one in place — unless a change handler of the class drops the cache
                     ci_ = ctx.classes.find(f"{m.name}.{cname}")
                     for node in ast.walk(fn):
-                        if not (isinstance(node, ast.If) and isinstance(node.test, ast.BoolOp) and isinstance(node.test.op, ast.Or)):
+                        if not isinstance(node, ast.If):
                             continue
-                        first = node.test.values[0]
+                        if isinstance(node.test, ast.BoolOp) and isinstance(node.test.op, ast.Or):
+                            first, others = node.test.values[0], node.test.values[1:]
+                        else:
+                            first, others = node.test, []       # `if self.C is None:` — filled once, never looked at again
                         if not (isinstance(first, ast.Compare) and len(first.ops) == 1 and isinstance(first.ops[0], ast.Is) and self_attr(first.left)
                                 and isinstance(first.comparators[0], ast.Constant) and first.comparators[0].value is None):
                             continue
                         cache = self_attr(first.left)
                         stores = [st for st in node.body if isinstance(st, ast.Assign) and any(self_attr(tg) == cache for tg in st.targets)]
                         value_compared = False
-                        for other in node.test.values[1:]:
+                        for other in others:
                             for x in ast.walk(other):
                                 # a comparison of VALUES: `a != b` / `not torch.equal(a, b)` on the tensors themselves.  `a is not b` compares identities: an in-place update
                                 # (optimiser step + fire_parameter_changed) keeps the identity; `.shape` / `.dtype` / `len()` compare the metadata only
@@ -1126,6 +1130,15 @@ def check_inplace(ctx, rep, rule='C11.W', only=None):
                         k = None
                     if k == PARAM or (k is None and _is_param_attr(ctx, ci, self_attr(recv))):
                         owner = recv
+            elif name == 'copy_' and isinstance(recv, ast.Name):
+                # `for parameter … in zip(self.parameters, …): parameter.copy_(v)` — the loop variable runs over the parameters the object holds, or an
+                # isinstance(…, Parameter) test says what it is: Parameter.copy_ writes into the stored tensor without telling anybody
+                from_params = any(isinstance(lp_, (ast.For, ast.comprehension)) and any(isinstance(x, ast.Name) and x.id == recv.id for x in ast.walk(lp_.target))
+                                  and any(self_attr(y) in ('parameters', '_parameters') for y in ast.walk(lp_.iter)) for lp_ in ast.walk(fn))
+                typed = any(isinstance(c_, ast.Call) and isinstance(c_.func, ast.Name) and c_.func.id == 'isinstance' and len(c_.args) == 2 and isinstance(c_.args[0], ast.Name)
+                            and c_.args[0].id == recv.id and 'Parameter' in ast.unparse(c_.args[1]) for c_ in ast.walk(fn))
+                if from_params or typed:
+                    owner = recv
             if owner is not None:
                 writes.append((st, owner))
         if not writes:
@@ -1539,3 +1552,25 @@ def check_foreign_private_stores(ctx, rep, rule='C11.W'):
                 f"{scope}: `{norm_text(st)[:60]}` writes the private storage of another object: its tensor setter — which is what tells its listeners — is bypassed, so every model "
                 f"that listens to that object keeps the value it computed before")
     rep.ok(rule, 'package::private-storage-is-written-by-its-owner-only', '', {'modules_scanned': n})
+
+
+def check_registration_listens(ctx, rep, rule='C11.H'):
+    """Parametric.register_parameter / register_model are what makes an object hear about the parameter or model it is handed: on every path they store it AND add the object as
+    a listener of it.  A registration that skips the listener for a name that is already bound leaves the object deaf to a parameter assigned over an old one."""
+    cls = ctx.classes.get(PARAMETRIC)
+    for meth, adder in (('register_parameter', 'add_parameter_listener'), ('register_model', 'add_model_listener')):
+        r = cls.resolve(meth)
+        key = f"{cls.qualname}::{meth}::listens-on-every-path"
+        if r is None:
+            rep.undecided(rule, key, where(cls.module, cls.node), f"{meth} not found")
+            continue
+        fn = r[1]
+        obj = fn.args.args[2].arg if len(fn.args.args) > 2 else None
+        cfg = CFG(fn)
+        adds = [n for n in cfg.stmt_nodes() if isinstance(n.stmt, ast.Expr) and isinstance(n.stmt.value, ast.Call) and isinstance(n.stmt.value.func, ast.Attribute)
+                and n.stmt.value.func.attr == adder and isinstance(n.stmt.value.func.value, ast.Name) and n.stmt.value.func.value.id == obj
+                and n.stmt.value.args and isinstance(n.stmt.value.args[0], ast.Name) and n.stmt.value.args[0].id == 'self']
+        ok = bool(adds) and cfg.must_pass(cfg.entry, cfg.exit, adds)
+        rep.check(rule, key, ok, where(r[0].module, fn), {'listener_calls': [a.stmt.lineno for a in adds]},
+                  f"Parametric.{meth} does not call `{obj}.{adder}(self)` on every path: an attribute assigned a second time (a new parameter over an old one) is stored but never "
+                  f"listened to, so updates of the new object leave every cache of the holder stale")
